@@ -5,7 +5,8 @@ import UralModel.Model.Facebook
 `reparsable r` is the *decidable hypothesis* of `Ural.Props.C19.Facebook.reparse_url_partial`:
 the records (returned by the parser or not) for which "`parse_facebook_url(r.url) == r`" is
 proved; `charsOk r` is the character-level hypothesis of `reparse_of_parse_partial` (records
-the parser returned).  It lives next to the model
+the parser returned: only the characters that fail by design); `pathFieldsClean r` is the
+conclusion of `parsed_path_fields_clean`.  All this lives next to the model
 (no theorem here) because the driver evaluates it on every record of the correspondence
 stream, so that the check can tell the inputs covered by the theorem from those that are only
 explored (`harness/props/c19/facebook.py`, op `fb_hyp`).
